@@ -176,6 +176,17 @@ class ProcessModels(CommonModels):
                         ok = z3.And(fired[0][0].t == elem.t, z3.BoolVal(arg is None or fired[0][2] is arg))
                     ctx.oblige('loop.notify.each_pending_wait_fired_once_with_the_outcome', p3, ok,
                                clause='the launch result fires at most once; every waiter gets the same outcome')
+            # a wait requested from inside one of these callbacks must not be lost: either the loop walks the live list
+            # (the newcomer is appended to it and reached), or the list was retired before the loop and the outcome is
+            # already stored (the newcomer is answered at once by when_connected)
+            slf = path.heap.get(('l', fr.fid, 'self'))
+            if isinstance(slf, VInst):
+                cur = path.heap.get(('f', slf.oid, '_connected_listeners'))
+                res = path.heap.get(('f', slf.oid, '_connected_result'))
+                live = getattr(it, 'origin', None) == ('f', slf.oid, '_connected_listeners') and isinstance(cur, VSeq) and cur.t.eq(it.t)
+                ok = live or (isinstance(cur, VNone) and arg is not None and res is arg)
+                ctx.oblige('loop.notify.wait_requested_during_notification_is_not_lost', path, z3.BoolVal(bool(ok)),
+                           clause='every wait handed out fires exactly once - also one requested from inside a callback of another wait')
             path.heap[('g', 'notified_all')] = path.heap.get(('g', 'notified_all'), ()) + (it,)
             return [(path, 'next', None)]
         return None
